@@ -11,7 +11,7 @@ from .stmts import StmtMixin
 
 LPVAR = z3.DeclareSort("LPVar")
 LP_INF = z3.Real("lp_INF")
-LP_NAMES = {"newvar", "newvar_at", "emits", "emitted", "lp_binary", "lp_integer", "lp_lb", "lp_ub", "lp_name",
+LP_NAMES = {"lp_solution", "newvar", "newvar_at", "emits", "emitted", "lp_binary", "lp_integer", "lp_lb", "lp_ub", "lp_name",
             "lp_inf", "lp_families", "lp_isvar", "family", "lp_objective", "lp_setobjective"}
 
 
@@ -287,6 +287,20 @@ class LPMixin(StmtMixin):
                 return VReal(LP_INF)
         return super().getattr(st, obj, name, node)
 
+    def call_method(self, st, recv, name, args, kw, node):
+        r = self.force(st, recv)
+        if isinstance(r, VLin) and getattr(r, "var", None) is not None:
+            v = r.var
+            if name == "solution_value":
+                return VReal(self.ctx.ufunc("lp_solution", LPVAR, z3.RealSort())(v))
+            if name == "integer":
+                return VBool(self.ctx.ufunc("lp_integer", LPVAR, z3.BoolSort())(v))
+            if name in ("lb", "ub"):
+                return VReal(self.ctx.ufunc("lp_" + name, LPVAR, z3.RealSort())(v))
+            if name == "name":
+                return VStr(self.ctx.ufunc("lp_name", LPVAR, z3.StringSort())(v))
+        return super().call_method(st, recv, name, args, kw, node)
+
     # ------------------------------------------------------------------ spec builtins
 
     def site_where(self, st, node):
@@ -343,6 +357,11 @@ class LPMixin(StmtMixin):
             if var is None:
                 raise Unsupported("lp_name of a non-variable")
             return VStr(self.ctx.ufunc("lp_name", LPVAR, z3.StringSort())(var))
+        if name == "lp_solution":
+            var = getattr(a[0], "var", None)
+            if var is None:
+                raise Unsupported("lp_solution of a non-variable")
+            return VReal(self.ctx.ufunc("lp_solution", LPVAR, z3.RealSort())(var))
         if name == "lp_isvar":
             return VBool(getattr(a[0], "var", None) is not None)
         if name == "lp_setobjective":
